@@ -41,10 +41,11 @@ def cleanStatus : StatusArg → Except String (Str × Int)
     let v := Views.strip s
     if v.isEmpty then .error "ValueError"
     else
-      let (codeStr, sep, _) := Views.partitionCh ' ' v
-      match Views.CC.pyInt codeStr with
-      | none => .ok ("0 ".toList ++ v, 0)
-      | some i => if sep then .ok (v, i) else .ok (codeLine i, i)
+      let p := Views.partitionCh ' ' v
+      -- `int(code_str)`: C06's model of `int()` on text (surrounding white space, sign, `_` separators)
+      match Http.pyInt p.1 with
+      | .error _ => .ok ("0 ".toList ++ v, 0)
+      | .ok i => if p.2.1 then .ok (v, i) else .ok (codeLine i, i)
 
 /-! ### body -/
 
@@ -200,5 +201,158 @@ def closeLog (r : R) (method : Str) : List CloseEv := (getAppIter r method).clos
 registered callback -/
 def expectedClose (r : R) : List CloseEv :=
   (match r.body.kind with | .stream true => [.wrapped] | _ => []) ++ r.onClose
+
+/-! ### histories on one response object
+
+The life of a `Response` between construction and the moment the server closes the iterable it was
+handed: registering close callbacks, `get_data()` / `make_sequence()` / `freeze()` / `set_data()`,
+explicit `close()` (also the `with` statement), `get_wsgi_response(environ)`, the server pulling
+chunks and closing. A streamed body is consumed in place (everything that iterates it shares it);
+`Response.close` looks at the response *when it runs*, so callbacks registered after
+`get_wsgi_response` still run. -/
+
+structure Cfg where
+  /-- `implicit_sequence_conversion` -/
+  implicitConv : Bool := true
+  /-- `automatically_set_content_length` -/
+  autoLength : Bool := true
+deriving Repr, DecidableEq
+
+/-- the iterable the server holds -/
+inductive Held where
+  | none
+  /-- `ClosingIterator(iter_encoded(), self.close)` over a list / tuple: its remaining chunks -/
+  | seqIter (rest : List Bytes)
+  /-- … over the streamed iterable that is still the response's body (shared, consumed in place) -/
+  | streamIter
+  /-- … over a streamed iterable that is no longer the response's body: consumed by
+  `make_sequence` / `freeze` (nothing left) or replaced by `set_data` (its remaining items) -/
+  | ownStream (rest : List Item)
+  /-- `ClosingIterator((), self.close)` for HEAD / 1xx / 204 / 304 -/
+  | emptyIter
+  /-- direct passthrough of a list / tuple: the list itself (no `close`) -/
+  | rawSeq (rest : List Bytes)
+  /-- direct passthrough of a streamed iterable; `shared` = it is still the response's body -/
+  | rawStream (closable : Bool) (shared : Bool) (rest : List Item)
+deriving Repr, DecidableEq
+
+structure St where
+  r : R
+  cfg : Cfg
+  held : Held
+  /-- chunks the server received so far -/
+  sent : List Bytes
+  /-- close actions that ran, in order -/
+  log : List CloseEv
+  /-- status line and header list of the last `get_wsgi_response` -/
+  wsgi : Option (Str × HList)
+deriving Repr, DecidableEq
+
+inductive REv where
+  | callOnClose (n : Nat)
+  | getData
+  | makeSequence
+  /-- `freeze()`; `etag` is `generate_etag(data)` (SHA-1, opaque) -/
+  | freeze (etag : Str)
+  | setData (b : Bytes)
+  /-- `response.close()` / leaving `with response:` -/
+  | close
+  | getWsgi (method : Str) (locOut clocOut : Str)
+  /-- the server pulls up to `n` chunks -/
+  | take (n : Nat)
+  /-- the server calls `close()` on the iterable when it has one -/
+  | iterClose
+deriving Repr, DecidableEq
+
+inductive Out where
+  | unit
+  | data (b : Bytes)
+deriving Repr, DecidableEq
+
+def allBytes (items : List Item) : Bytes := (items.map Item.encode).flatten
+
+/-- the held iterable loses the streamed body it shared with the response -/
+def detach (held : Held) (rest : List Item) : Held :=
+  match held with
+  | .streamIter => .ownStream rest
+  | .rawStream c true _ => .rawStream c false rest
+  | h => h
+
+/-- `_ensure_sequence()` -/
+def ensureSequence (s : St) : Except String St :=
+  match s.r.body.kind with
+  | .seq => .ok s
+  | .stream _ =>
+    if s.r.directPassthrough then .error "RuntimeError"
+    else if !s.cfg.implicitConv then .error "RuntimeError"
+    else .ok { s with r := makeSequence s.r, held := detach s.held [] }
+
+/-- `get_wsgi_headers` honouring `automatically_set_content_length` -/
+def getWsgiHeadersCfg (auto : Bool) (r : R) (locOut clocOut : Str) : HList :=
+  if auto then getWsgiHeaders r locOut clocOut
+  else getWsgiHeaders { r with body := ⟨.stream false, r.body.items⟩ } locOut clocOut
+
+def nextEv (s : St) : REv → St × Except String Out
+  | .callOnClose n => ({ s with r := callOnClose s.r n }, .ok .unit)
+  | .getData =>
+    match ensureSequence s with
+    | .error e => (s, .error e)
+    | .ok s' => (s', .ok (.data (allBytes s'.r.body.items)))
+  | .makeSequence =>
+    match s.r.body.kind with
+    | .seq => (s, .ok .unit)
+    | .stream _ => ({ s with r := makeSequence s.r, held := detach s.held [] }, .ok .unit)
+  | .freeze etag =>
+    let items : List Item := s.r.body.items.map fun i => .bytes i.encode
+    let h1 := (Hdr.set s.r.headers "Content-Length".toList (Views.CC.natText (totalLen items))).1
+    let h2 := if Hdr.contains h1 "etag".toList then h1 else (Hdr.set h1 "ETag".toList ('"' :: etag ++ ['"'])).1
+    ({ s with r := { s.r with body := ⟨.seq, items⟩, headers := h2 },
+              held := match s.r.body.kind with | .stream _ => detach s.held [] | .seq => s.held }, .ok .unit)
+  | .setData b =>
+    let h := if s.cfg.autoLength then (Hdr.set s.r.headers "Content-Length".toList (Views.CC.natText b.length)).1
+      else s.r.headers
+    ({ s with r := { s.r with body := ⟨.seq, [.bytes b]⟩, headers := h },
+              held := match s.r.body.kind with | .stream _ => detach s.held s.r.body.items | .seq => s.held }, .ok .unit)
+  | .close => ({ s with log := s.log ++ respClose s.r }, .ok .unit)
+  | .getWsgi method lo co =>
+    let headers := getWsgiHeadersCfg s.cfg.autoLength s.r lo co
+    let held : Held :=
+      if bodyless s.r.status method then .emptyIter
+      else match s.r.body.kind, s.r.directPassthrough with
+        | .seq, true => .rawSeq (s.r.body.items.map Item.encode)
+        | .stream c, true => .rawStream c true []
+        | .seq, false => .seqIter (s.r.body.items.map Item.encode)
+        | .stream _, false => .streamIter
+    ({ s with held := held, wsgi := some (s.r.statusLine, headers) }, .ok .unit)
+  | .take n =>
+    match s.held with
+    | .seqIter rest => ({ s with held := .seqIter (rest.drop n), sent := s.sent ++ rest.take n }, .ok .unit)
+    | .rawSeq rest => ({ s with held := .rawSeq (rest.drop n), sent := s.sent ++ rest.take n }, .ok .unit)
+    | .streamIter =>
+      ({ s with r := { s.r with body := ⟨s.r.body.kind, s.r.body.items.drop n⟩ },
+                sent := s.sent ++ (s.r.body.items.take n).map Item.encode }, .ok .unit)
+    | .rawStream c true _ =>
+      ({ s with r := { s.r with body := ⟨s.r.body.kind, s.r.body.items.drop n⟩ },
+                sent := s.sent ++ (s.r.body.items.take n).map Item.encode, held := .rawStream c true [] }, .ok .unit)
+    | .rawStream c false rest =>
+      ({ s with held := .rawStream c false (rest.drop n), sent := s.sent ++ (rest.take n).map Item.encode }, .ok .unit)
+    | .ownStream rest =>
+      ({ s with held := .ownStream (rest.drop n), sent := s.sent ++ (rest.take n).map Item.encode }, .ok .unit)
+    | .emptyIter => (s, .ok .unit)
+    | .none => (s, .ok .unit)
+  | .iterClose =>
+    match s.held with
+    | .none => (s, .ok .unit)
+    | .rawSeq _ => (s, .ok .unit)
+    | .rawStream c _ _ => ({ s with log := s.log ++ (if c then [.wrapped] else []) }, .ok .unit)
+    -- `ClosingIterator.close`: the `iter_encoded` generator is closed (it yields nothing any more),
+    -- then `Response.close` runs
+    | _ => ({ s with log := s.log ++ respClose s.r, held := .emptyIter }, .ok .unit)
+
+def runEvs (s : St) : List REv → St
+  | [] => s
+  | e :: t => runEvs (nextEv s e).1 t
+
+def initSt (r : R) (cfg : Cfg) : St := ⟨r, cfg, .none, [], [], none⟩
 
 end Wz.Resp
